@@ -150,4 +150,49 @@ func c09PooledVM(s *sim.Sim, p *sim.Params) {
 		}
 	}
 	s.Probe("pooled-vm-run")
+	c09vmPanickingBlock(s)
+}
+
+// c09vmPanickingBlock: a block whose body panics (a host builtin that misbehaves) must make every
+// awaiter's await raise — the same error for all of them, whenever they arrive.
+func c09vmPanickingBlock(s *sim.Sim) {
+	src := "@ GET /boom {\n  $ f = async {\n    > host.query(1)\n  }\n  > {fut: f}\n}\n"
+	code := c09vmCompile(s, src)
+	m := vm.NewVM()
+	m.SimSetBuiltin("host.query", func(args []vm.Value) (vm.Value, error) {
+		var rows map[string]int
+		rows["n"] = 1 // nil map: a run-time panic inside the host function
+		return vm.NullValue{}, nil
+	})
+	res, err := m.Execute(code)
+	if err != nil {
+		s.InfraFail("C09 pooled VM: the panicking-block program failed to start: " + err.Error())
+	}
+	f := c09vmFuture(res)
+	if f == nil {
+		s.InfraFail("C09 pooled VM: the panicking-block program did not return its future")
+	}
+	n := 2 + s.Choose(sim.SWork, 3)
+	errs := make([]string, n)
+	var hs []*sim.Handle
+	for i := 0; i < n; i++ {
+		i := i
+		hs = append(hs, s.Spawn(fmt.Sprintf("awaiter#%d", i), func() {
+			val, err := f.Await()
+			if err == nil {
+				errs[i] = fmt.Sprintf("no error, value %v", val)
+			} else {
+				errs[i] = "error: " + err.Error()
+			}
+		}))
+	}
+	if !s.WaitTimeout(2*time.Minute, hs...) {
+		s.Fail("deadlock", s.BlockedSitesOf(hs...), "awaiters of a panicking block did not return: "+s.BlockedSummary())
+	}
+	for i, e := range errs {
+		if !strings.HasPrefix(e, "error: ") || e != errs[0] {
+			s.Fail("oracle", "vm-future:panicking-block", fmt.Sprintf("the block panicked; awaiter %d got %q, awaiter 0 got %q: every await must raise the block's error, the same for all", i, e, errs[0]))
+		}
+	}
+	s.Probe("panicking-block-awaited")
 }
